@@ -1,1 +1,69 @@
-fn main(){}
+//! uvcheck <Cxx> <quick|thorough>      run a check, write /verif/evidence/<Cxx>.json
+//! uvcheck --replay <file>             re-run the case recorded in a replay file
+//! uvcheck --worker ...                internal (pool worker)
+#![allow(dead_code)]
+mod common;
+mod pool;
+mod e1;
+mod c17;
+
+use common::*;
+
+pub struct Entry {
+    pub id: &'static str,
+    pub run: fn(&Ctx) -> i32,
+    pub space: fn(Tier, &str) -> Option<Box<dyn pool::Space>>,
+    pub replay: fn(Tier, &serde_json::Value) -> Vec<Violation>,
+}
+
+fn registry() -> Vec<Entry> {
+    vec![c17::entry()]
+}
+
+fn main() {
+    let args: Vec<String> = std::env::args().collect();
+    if args.len() < 2 {
+        eprintln!("usage: uvcheck <Cxx> <quick|thorough> | --replay <file>");
+        std::process::exit(2);
+    }
+    let reg = registry();
+    if args[1] == "--worker" {
+        // --worker <prop> <tier> <space> <pool args...>
+        let prop = &args[2];
+        let tier = Tier::parse(&args[3]);
+        let e = reg.iter().find(|e| e.id == prop).expect("unknown property");
+        let sp = (e.space)(tier, &args[4]).expect("unknown space");
+        std::process::exit(pool::run_worker(sp.as_ref(), &args[5..]));
+    }
+    if args[1] == "--replay" {
+        let txt = std::fs::read_to_string(&args[2]).expect("replay file");
+        let v: serde_json::Value = serde_json::from_str(&txt).expect("replay json");
+        let prop = v["property"].as_str().unwrap_or("");
+        let tier = Tier::parse(v["tier"].as_str().unwrap_or("quick"));
+        let e = reg.iter().find(|e| e.id == prop).expect("unknown property");
+        quiet_panics();
+        let vs = (e.replay)(tier, &v["violation"]["case"]);
+        let known = load_known(prop);
+        let mut bad = 0;
+        for x in &vs {
+            let cov = covering(&known, x).map(|k| k.id.clone());
+            println!("clause={} symptom={} tags={:?} known={:?}\n  {}", x.clause, x.symptom, x.tags, cov, x.detail);
+            if cov.is_none() {
+                bad += 1;
+            }
+        }
+        println!("replay: {} violation(s), {} not covered by known findings", vs.len(), bad);
+        std::process::exit(if bad > 0 { 1 } else { 0 });
+    }
+    let prop = args[1].clone();
+    let tier = Tier::parse(args.get(2).map(|s| s.as_str()).unwrap_or(&std::env::var("VERIF_TIER").unwrap_or("quick".into())));
+    let e = match reg.iter().find(|e| e.id == prop) {
+        Some(e) => e,
+        None => {
+            eprintln!("unknown property {}", prop);
+            std::process::exit(2);
+        }
+    };
+    let ctx = Ctx::new(&prop, tier);
+    std::process::exit((e.run)(&ctx));
+}
